@@ -870,6 +870,12 @@ def tf_commands():
         out.append(("tf %s one arg added" % name, "tf %s %s %s" % (name, " ".join(args), args[-1])))
         out.append(("tf %s two args added" % name, "tf %s %s %s %s" % (name, " ".join(args), args[-1], args[0])))
     out.append(("tf unknown function", "tf nosuchfunction 01"))
+    # a quote left open at the end of the line: the argument continues on the following lines until the quote closes
+    for (cn, cont) in [("short", ["cd"]), ("1100-chars", ["c" * 1100]), ("3000-chars", ["c" * 3000]), ("9000-chars", ["c" * 9000]), ("two-6000-char-lines", ["c" * 6000, "d" * 6000]),
+                       ("four-400-char-lines", ["c" * 400, "d" * 400, "e" * 400, "f" * 400]), ("escapes", ["c\\" * 700]), ("empty-lines", ["", "", "x"])]:
+        for head in ("tf echo", "tf len", "exec"):
+            out.append(("%s: open quote continued over %s" % (head, cn), "%s \"ab\n%s\"" % (head, "\n".join(cont))))
+        out.append(("tf echo: long first line, open quote continued over %s" % cn, "tf echo %s \"ab\n%s\"" % ("0x" + "11" * 700, "\n".join(cont))))
     return out
 
 
@@ -895,6 +901,18 @@ def sessions(txs):
 
 
 FULL_DEPTH_SESSIONS = {"throwing-first-op"}
+
+# history files found in the working directory at start-up (readline front end)
+HISTORY_FILES = {
+    "plain": b"step\nprint\n",
+    "no-final-newline": b"step\nstack",
+    "nul-first": b"step\n\x00hidden\nstack\n",
+    "lone-nul": b"\x00",
+    "long-line": b"tf echo " + b"a" * 3000 + b"\nstep\n",
+    "escapes": b"tf echo a\\nb\nexec 1\\\n\\\\\\\n",
+    "empty": b"",
+    "blank-lines": b"\n\n\n",
+}
 INTERACTIVE_TX_COMMANDS = ["print", "step", "step", "step", "rewind", "print", "stack"]
 
 
